@@ -49,9 +49,9 @@ T = {
          "In constant-QP mode the library substitutes its default bounds (documented: min/max apply to rate control only); the effective bounds are used there."),
  "C19": ("header parser for frame placement + suffix decodes from every shown key frame in fresh libaom/dav1d", "3/C19",
          "Frame type per display position vs intra period/refresh type over hierarchical levels 0..5, overlays, lengths; every packet with a shown key frame is used as a cut point: the suffix decoded by fresh reference decoders must equal the full decode.", "libaom decides, dav1d is second witness."),
- "C20": ("header parser: tool signalling per frame vs the switched-off tool, paired switch-on run; tile info vs spec limits", "3/C20",
-         "For each tool switch: the off run must not signal the tool in any frame header (loop filter levels, CDEF strengths, LR types, allow_intrabc, allow_screen_content_tools, global-motion types, allow_warped_motion, use_superres, sequence-level filter-intra / inter-intra permissions); the paired on run shows the content would use it. Tiling: signalled log2 counts equal the request clamped by the spec formulas for the frame size.",
-         "Block-level use of palette/CfL/OBMC/filter-intra inside frames that permit them is not visible to a header parser (would need decoder-side block counters); those tools are judged at the level where the bitstream permits them. superres has no effect in this snapshot (never signalled even when requested)."),
+ "C20": ("header parser (frame-level signalling) + decoder block-parser counters (hook H5, validated against libaom) vs the switched-off tool, paired switch-on run; tile info vs spec limits", "3/C20",
+         "For each tool switch, alone and crossed with other contexts (tiles, 10-bit, overlays, rate control, lp 1): the off run must not signal the tool in any frame header (loop filter levels, CDEF strengths, LR types, allow_intrabc, allow_screen_content_tools, global-motion types, allow_warped_motion, use_superres) and, for block-level tools (palette, CfL, OBMC, filter intra, inter-intra, local warped motion, intrabc), the SVT decoder's block parser must count zero uses (hook H5; the parse is trusted only when the decoder's pictures equal libaom's); the paired on run shows the content would use the tool. Tiling: signalled log2 counts and tile counts equal the request clamped by the spec formulas for the frame size.",
+         "superres has no effect in this snapshot (never signalled even when requested), so its off case is trivially true."),
  "C21": ("metamorphic equality across stride/padding/scribble/free of the caller's buffer + ASan", "3/C21",
          "Variants that differ only in invisible bytes (stride +0..64, padding bytes, buffer overwritten or freed right after send_picture returns) must give identical output; freed/scribbled variants also run under ASan.", "Strides within the property's +0..64."),
  "C22": ("exhaustive white-box evaluation of every order-hint distance helper + long-stream differential decode and history check", "3/C22",
